@@ -3245,7 +3245,14 @@ class ISLaSolver:
 
             for subst_var, subst_tree in subformula.substitutions.items():
                 new_name = f"{subst_tree.value}_{subst_tree.id}"
-                new_var = language.BoundVariable(new_name, subst_var.n_type)
+                # The solution for `new_var` replaces `subst_tree`; it thus has to be
+                # a tree of the type of `subst_tree`. This type differs from the one
+                # of the variable if the top-level constant is instantiated with an
+                # initial tree for another start symbol.
+                new_var = language.BoundVariable(
+                    new_name,
+                    subst_var.n_type if subst_var.is_numeric() else subst_tree.value,
+                )
 
                 new_smt_formula = cast(
                     z3.BoolRef,
